@@ -217,6 +217,16 @@ func (nd *node) setOwner(uid, gid int) {
 	if gid != -1 {
 		nd.gid = gid
 	}
+
+	// As chown(2) does, whatever the new owner : a file that is not a directory loses its set-user-ID bit,
+	// and its set-group-ID bit when it is executable by its group.
+	if !nd.isDir() {
+		nd.mode &^= fs.ModeSetuid
+
+		if nd.mode&0o010 != 0 {
+			nd.mode &^= fs.ModeSetgid
+		}
+	}
 }
 
 // size returns the size of the file.
